@@ -2,7 +2,9 @@
   Model of class MDSDRV_Linker (/repo/src/platform/mdsdrv.cpp + mdsdrv.h) as it is after the
   `fix:` commits 795bab9 (get_seq_data keeps no state), b631743 (short ver/seq chunk),
   f4c9b9c (PCM header outside pcmd), 2e3fb5a (pointer slot outside the sequence), bbcbd9c
-  (pitch clamp before narrowing), bd33990 (identifier beginning with a digit).
+  (pitch clamp before narrowing), bd33990 (identifier beginning with a digit), and the repair of
+  D11 (add_song re-homes the playback window `pcmd[position + start, +size)` of a PCM header and
+  passes `start = 0`; same commit as the Wave_Bank repair, see Model/Wave.lean).
 
   One definition per C++ function: `addSong` (chunk walk over Model/Riff, `checkVersion`, patch
   table, PCM re-homing through Model/Wave.addSample, group keying), `getSeqData` (bank layout,
@@ -239,9 +241,9 @@ def addPcmh (sdata seqLen : Nat) (pcmd data : Bytes) (a : Acc) : Except Err Acc 
     match Wave.Sample.fromBytes (data.drop 4) with
     | none => .error .outOfRange
     | some header =>
-      if header.position + header.size > pcmd.length then .error .malformed else
-      let sample := (pcmd.drop header.position).take header.size
-      match Wave.addSample a.wave { header with position := 0 } sample with
+      if header.position + header.start + header.size > pcmd.length then .error .malformed else
+      let sample := (pcmd.drop (header.position + header.start)).take header.size
+      match Wave.addSample a.wave { header with position := 0, start := 0 } sample with
       | .error e => .error (ofWaveErr e)
       | .ok (w, sidx) =>
         match w.samples[sidx % 65536]? with
